@@ -413,13 +413,43 @@ class StmtMixin:
         meta = {}
         if isinstance(concl, Al):
             from .contracts import al_goal, _sel_simp
-            g, used = al_goal(Al(_sel_simp(concl.c), _sel_simp(concl.x)), st.defs)
+            x = self.prune_zero_summands(st, hyps, _sel_simp(concl.x))
+            g, used = al_goal(Al(_sel_simp(concl.c), x), st.defs)
             meta = {"al": True, "al_witness": used, "al_mod": (concl.x % concl.c == 0)}
             concl = g
         if isinstance(concl, bool):
             concl = z3.BoolVal(concl)
         goal = z3.Implies(z3.And(*hyps), concl) if hyps else concl
         self.oblige(st, name, goal, kind, meta)
+
+    def prune_zero_summands(self, st, hyps, x):
+        """drop summands of x that the path condition forces to 0 (keeps the witness decomposition simple)."""
+        for lhs, rhs in st.defs:
+            pass
+        x2 = z3.substitute(x, *st.defs) if st.defs else x
+        if not z3.is_add(x2):
+            return x
+        keep = []
+        for t in x2.children():
+            if z3.is_int_value(t) or z3.is_const(t) or (z3.is_app(t) and t.decl().kind() == z3.Z3_OP_UNINTERPRETED):
+                keep.append(t)
+                continue
+            s = z3.Solver()
+            s.set("timeout", 1500)
+            for a in self.axioms:
+                s.add(a)
+            for p in st.pc:
+                if not z3.is_quantifier(p):
+                    s.add(p)
+            for h in hyps:
+                s.add(h)
+            s.add(t != 0)
+            if s.check() == z3.unsat:
+                continue
+            keep.append(t)
+        if len(keep) == len(x2.children()):
+            return x
+        return z3.Sum(keep) if keep else z3.IntVal(0)
 
     def assume_clauses(self, st, clauses):
         for name, cl in clauses:
